@@ -6,7 +6,9 @@ proof   : Props/C34.v — check_lin / check_lin_keys sound for every history and
 tie     : 4 real clients x 2 goroutines hammer 3 nodes of the stock server with unique values; the recorded histories
           (invocation/response instants) are checked by check_lin evaluated inside Coq (vm_compute).  Every third run is
           a group run (one request writes / reads 4 nodes): group_history && untorn inside Coq, then the collapsed
-          history (group = one register) through check_lin.
+          history (group = one register) through check_lin; every third run is a blob run: the values are 80 KiB
+          ByteStrings (multi-chunk requests and responses) carrying a unique id in every word, writers alternate nodes;
+          a blob whose words disagree counts as a value nobody wrote.
 oracle  : a history check_lin rejects is searched exhaustively (python, per node, Wing-Gong with memoisation); if a
           linearization exists it is handed to check_lin_keys (Coq) as a hint; otherwise the history is the replay.
 """
@@ -177,7 +179,7 @@ def run(ctx):
     for o in obs:
         hist.setdefault((o["run"], o["mode"]), []).append(o)
     keys = sorted(hist)
-    singles = [k for k in keys if k[1] == "single"]
+    singles = [k for k in keys if k[1] in ("single", "blob")]
     groups = [k for k in keys if k[1] == "group"]
 
     new, corr_ok = 0, True
@@ -256,7 +258,7 @@ def run(ctx):
     ctx.coverage.update({
         "evaluations": nops,
         "distinct_nontrivial": len({(o["run"], o["client"], o["inv"]) for o in obs}),
-        "rule": "completed read/write operations recorded from 4 real clients x 2 goroutines against the stock server, %d runs (every third a whole-request group run); distinct = distinct (run, worker, invocation instant); every run's history is checked inside Coq by check_lin" % len(keys),
+        "rule": "completed read/write operations recorded from 4 real clients x 2 goroutines against the stock server, %d runs (every third a whole-request group run, every third a run with 80 KiB multi-chunk ByteString values); distinct = distinct (run, worker, invocation instant); every run's history is checked inside Coq by check_lin" % len(keys),
         "samples": [{k: o[k] for k in ("run", "mode", "client", "op", "args", "inv", "res")} for o in (obs[:3] + obs[-2:])],
         "histories": len(keys), "histories_accepted_by_check_lin": lin_ok,
         "writes": sum(1 for o in obs if o["op"] == "w"), "reads": sum(1 for o in obs if o["op"] == "r"),
